@@ -144,17 +144,20 @@ def execute(sc, mutant=None):
                 nopen[0] += 1
                 cf.open_link('sim://0/%d' % nopen[0])
 
-        def do_send(k, p):
-            # at most one request per pattern and session (assumption of the property check)
-            if cf.link is None or (dev.session, p) in st.setdefault('sent', set()):
+        def do_send(k, p, after=0):
+            # at most one request per pattern and session (assumption of the property check) -- except
+            # the follow-up a reply handler issues for the pattern whose reply it is handling (after)
+            if cf.link is None or (not after and (dev.session, p) in st.setdefault('sent', set())):
                 return
-            st['sent'].add((dev.session, p))
+            st.setdefault('sent', set()).add((dev.session, p))
             st['nreq'] += 1
             r = st['nreq']
             if k != 'send':      # answered at once from the first / from the second copy on
                 st.setdefault('auto', {})[r] = 1 if k == 'sendq' else 2
+            # after: id (last data byte) of the incoming packet whose handler issues this request, 0 = none;
+            # that packet was received before the request existed and cannot be its answer
             ev.append({'e': 'send', 'req': r, 'sess': dev.session, 'pat': [HDR] + list(PATS[p]),
-                       'tmo': int(round(TMO[p] * 1000))})
+                       'tmo': int(round(TMO[p] * 1000)), 'after': after})
             pk = CRTPPacket()
             pk.set_header(PORT, 0)
             pk.data = bytes([r]) + bytes(PATS[p])
@@ -177,6 +180,26 @@ def execute(sc, mutant=None):
             cf.connection_failed.add_callback(on_link_error)
             cf.connection_lost.add_callback(on_link_error)
             cf.disconnected_link_error.add_callback(on_link_error)
+
+        # an application that polls: the handler of a reply issues the next request for the same
+        # data (the first `echo` replies on the port do that, pattern by the reply's leading bytes)
+        if sc.get('echo'):
+            eleft = [int(sc['echo'])]
+
+            def on_reply(pk):
+                d = tuple(pk.data)
+                if eleft[0] <= 0 or len(d) < 2 or not (100 <= d[-1] < 250):
+                    return
+                for p in (2, 1, 3):                       # longest pattern first
+                    if d[:len(PATS[p])] == PATS[p]:
+                        eleft[0] -= 1
+                        with app_lock:
+                            do_send('send', p, after=d[-1])
+                        return
+            cf.add_port_callback(PORT, on_reply)
+        if getattr(cf, '_verif_check_last', False):      # in-memory mutant: answers checked after the port callbacks
+            cbs.remove(checked)
+            cf.add_port_callback(PORT, checked)
 
         def user():
             for op in sc['ops']:
@@ -212,7 +235,9 @@ def execute(sc, mutant=None):
                     vtime.sleep(op[1])
                 elif k == 'inject':
                     if dev.link is not None:
-                        dev.emit(sd.reply(PORT, 0, bytes(op[1])))
+                        # every injected packet ends in a unique id byte (patterns are prefixes)
+                        st['pid'] = 100 + (st.get('pid', 100) - 100 + 1) % 150
+                        dev.emit(sd.reply(PORT, 0, bytes(op[1]) + bytes([st['pid']])))
 
         u = s.spawn(user, 'user')
         s.run(until=lambda: u.finished, horizon=60.0)
@@ -256,6 +281,8 @@ def gen_scenario(rng, reliable=False):
             ops.append(('sleep', 0.0))
     kinds = ['fifo', 'random0', 'pct0', 'random', 'pct']
     sc = {'ops': ops, 'reliable': reliable, 'policy': (rng.choice(kinds), rng.randrange(1 << 30))}
+    if rng.random() < 0.15:
+        sc['echo'] = rng.randint(1, 2)
     if rng.random() < 0.25:
         sc['recb'] = [rng.choice([1, 2, 3]) for _ in range(rng.randint(1, 2))]
     return sc
@@ -313,6 +340,14 @@ def systematic():
         for pk in (PACKETS[2], PACKETS[3], PACKETS[1]):
             out.append({'ops': [('open',), ('send', 1), ('inject', pk), ('send', 2), ('inject', pk), ('send', 3), ('sleep', 0.7)],
                         'lines': True, 'reliable': False, 'policy': (['random0', 'pct0'][seed % 2], seed)})
+    # (f) a polling application: the handler of a reply sends the next request for the same pattern
+    for p in (1, 2, 3):
+        rep = {1: (1, 9), 2: (1, 2, 9), 3: (3,)}[p]
+        for n in (1, 2):
+            out.append({'ops': [('open',), ('send', p), ('sleep', 0.05), ('inject', rep), ('sleep', 0.9)], 'echo': n,
+                        'reliable': False, 'policy': ('fifo', 0)})
+            out.append({'ops': [('open',), ('send', p), ('sleep', 0.05), ('inject', rep), ('sleep', 0.45), ('inject', rep),
+                                ('sleep', 0.6)], 'echo': n, 'reliable': False, 'policy': ('random0', n)})
     # (c) a device that answers at once: the reply is handled while the sending thread is still
     #     inside send_packet (first transmission and retransmission)
     for p in (1, 2, 3):
@@ -458,6 +493,15 @@ def _mut_reset_after_callbacks(cf):
 
 
 MUTANTS['patterns_reset_after_callbacks'] = _mut_reset_after_callbacks
+
+
+def _mut_check_after_callbacks(cf):
+    # the dispatcher hands a packet to the port callbacks first and checks it for answers afterwards:
+    # a request sent by the packet's own handler is taken as answered by it
+    cf._verif_check_last = True
+
+
+MUTANTS['check_after_port_callbacks'] = _mut_check_after_callbacks
 
 
 def _exec_job(job):
@@ -709,10 +753,12 @@ def main(tier, seed, replay=None):
     races = [sc for sc in systematic() if sc['policy'][0] == 'park']
     recbs = [sc for sc in systematic() if sc.get('recb')]
     liners = [sc for sc in systematic() if sc.get('lines')]
+    echoes = [sc for sc in systematic() if sc.get('echo')]
     for name in sorted(MUTANTS):
         mt = run_scenarios(races if name in ('reread_link', 'reread_patterns', 'register_after_send') else
                            recbs if name == 'patterns_reset_after_callbacks' else
-                           liners if name == 'live_patterns_iteration' else sub, mutant=name)
+                           liners if name == 'live_patterns_iteration' else
+                           echoes if name == 'check_after_port_callbacks' else sub, mutant=name)
         for i, t in enumerate(mt):
             t['id'] = i + 1
         o2 = common.Outcome('C10', tier, seed)
